@@ -61,7 +61,16 @@ def cells(tier, seed):
             out.append({"k": "sorted", "n": n, "mode": mode})
     for what in ("set", "mapkeys"):
         out.append({"k": "enum", "what": what})
+    for n in range(2, 4 if tier == "quick" else 5):
+        for ki in range(len(MIXKEYS)):
+            out.append({"k": "sortedmix", "n": n, "key": ki})
     return out
+
+
+# sorted() over elements that are EQUAL but distinguishable (1 and 1.0, [1] and [1.0]) with key
+# functions that tell them apart: finite domain, elements chosen by symbolic selectors
+MIXPOOL = ["1", "1.0", "2", "2.0", "[1]", "[1.0]", "0"]
+MIXKEYS = ["fn(x) string(x)", "fn(x) type(x)", "fn(x) length(string(x))", "fn(x) [type(x), x]", "identity"]
 
 
 def mk(ctx, kind, name, n=0):
@@ -130,7 +139,35 @@ def run(ctx, cell):
         return run_sorted(ctx, cell)
     if k == "enum":
         return run_enum(ctx, cell)
+    if k == "sortedmix":
+        return run_sortedmix(ctx, cell)
     raise AssertionError(k)
+
+
+def run_sortedmix(ctx, cell):
+    ctx.reach("sorted")
+    n = cell["n"]
+    keyfn = MIXKEYS[cell["key"]]
+    key = "C07:sortedmix"
+    idx = [ctx.choice("e%d" % i, len(MIXPOOL)) for i in range(n)]
+    elems = [MIXPOOL[i] for i in idx]
+    # each element is paired with its input position: [elem, pos] so that equal ones stay apart
+    lit = "[" + ", ".join("[%s, %d]" % (e, i) for i, e in enumerate(elems)) + "]"
+    prog = ("def kf = %s; def l = %s; def r = sorted(l, key = fn(p) kf(p[0])); "
+            "[r, [compare(kf(r[i][0]), kf(r[i + 1][0])) for i in range(length(r) - 1)]]" % (keyfn, lit))
+    out = run_ckl(prog)
+    detail = {"elements": elems, "key": keyfn, "got": ctx.plain(out)}
+    if out.kind != "ok":
+        ctx.fail("%s:%s:%s" % (key, out.kind, out.hostname() or "runtime-error"), detail)
+        return out
+    res, cmps = out.value.value
+    poss = [p.value[1].value for p in res.value]
+    ctx.check(sorted(poss) == list(range(n)), key + ":not-a-permutation", detail)
+    for i, c in enumerate(cmps.value):
+        ctx.check(c.value <= 0, key + ":not-ordered-by-key", detail)
+        if c.value == 0:
+            ctx.check(poss[i] < poss[i + 1], key + ":not-stable", detail)
+    return out
 
 
 def notb(b):
